@@ -47,7 +47,7 @@ NAME_SPECIALS = [
 ]
 TEXT_SMALL = ["&", "<", '"', "\x0b", "\r", "\U0001F600"]
 NAME_SMALL = [b"A&B", b"A<B", b'A"/><figure name="B', b"A\x0bB", b"A\rB", "A\U0001F600B".encode()]
-PAGE2 = ["vertical-stack+text", "rect-only", "empty"]
+PAGE2 = ["vertical-stack+text", "rect-only", "empty", "no /Contents entry", "/Contents []"]
 
 LAPARAMS = [None, {}, {"boxes_flow": None}, {"all_texts": True}, {"detect_vertical": True, "all_texts": True}]
 CODECS = ["utf-8", "utf-16", "utf-32", "latin-1"]
@@ -58,7 +58,8 @@ BOUNDS = {
              "for documents with <= 1 special slot; for two-slot documents the BytesIO x codec part only under the default LAParams",
     "thorough": "all choice vectors with <= 2 non-default slots over the full alphabets; same option grids and document pairs; "
                 "text sinks (StringIO, extract_text) additionally with codec in {utf-8, latin-1, ascii} under the default LAParams (both tiers); "
-                "converters constructed directly and driven through PDFPageInterpreter (2 documents x first page number {1,7} x {StringIO,BytesIO}): "
+                "XML with an image writer (output_dir in a private temp dir; one-slot documents, default LAParams): well-formed, structure as the tree, every <image src> is an exported file; "
+                "page 2 also without /Contents and with /Contents [] (single deviations); converters constructed directly and driven through PDFPageInterpreter (2 documents x first page number {1,7} x {StringIO,BytesIO}): "
                 "TextConverter(showpageno) and XMLConverter(stripcontrol) x LAParams {None, default}; HTMLConverter(showpageno x layoutmode x scale/fontscale/pagemargin x rect/text colours) "
                 "- HTML only for nesting, page anchors and text content (both tiers); rotation: 2 documents x page /Rotate in {0,90,180,270} (page 2: +90) x extract_text_to_fp(rotation=) in {0,90,180,270,360,450,-90} x LAParams {None, default} x "
                 "{text, xml} x {StringIO, BytesIO}, each compared with rotation=0 on the hand-rotated document and with its tree (both tiers); "
@@ -82,7 +83,7 @@ META = {
         "the LTPage tree returned by extract_pages (PDFPageAggregator for laparams=None) is trusted as the hierarchy (C05-C09 judge it)",
         "well-formedness of XML in presence of characters XML 1.0 cannot represent (C0 controls, U+FFFF) is required only under strip_control=True; with strip_control=False such documents are not judged for XML",
         "HTML is not named by the statement: HTMLConverter output is checked only for element nesting, one anchor per page id and (normal/loose mode) text content modulo line breaks; its footer links and styles are not judged",
-        "hocr and tag outputs, image export (output_dir) and inline images (figure name is id()-derived, see C12) are not generated",
+        "hocr and tag outputs, the content of exported image files (C18) and inline images (figure name is id()-derived, see C12) are not generated",
         "only the one document skeleton; strings longer than the alphabet entries and more than two special slots at once are not explored",
         "linewidth, colourspace and ncolour attributes are not compared (not named by the statement)",
     ],
@@ -169,11 +170,13 @@ def build_pdf(m: dict) -> bytes:
     rot1 = {"Rotate": r1} if r1 else {}
     rot2 = {"Rotate": r2} if r2 else {}
     d.set(p1, {"Type": N("Page"), "Parent": pages, "Resources": res1, "Contents": d.add(Stream({}, c1)), **rot1})
-    d.set(p2, {"Type": N("Page"), "Parent": pages, "Resources": {"Font": {"F1": font}}, "Contents": d.add(Stream({}, c2)), **rot2})
+    cont2 = d.add(Stream({}, c2))
+    cont2 = {} if v == 3 else {"Contents": []} if v == 4 else {"Contents": cont2}  # a page without content is still a page
+    d.set(p2, {"Type": N("Page"), "Parent": pages, "Resources": {"Font": {"F1": font}}, **cont2, **rot2})
     return d.write(cat)
 
 
-def make_program(ts, ns):
+def make_program(ts, ns, npage2=len(PAGE2)):
     tA = ["A"] + list(ts)
     tB = ["B"] + list(ts)
     tX = ["X"] + list(ts)
@@ -189,7 +192,7 @@ def make_program(ts, ns):
             "form": x.pick(fm, "form XObject name"),
             "image": x.pick(im, "image XObject name"),
             "tX": x.pick(tX, "ToUnicode(X) in form"),
-            "page2": x.choose(len(PAGE2), "page 2 variant"),
+            "page2": x.choose(npage2, "page 2 variant"),
         }
 
     return program
@@ -197,7 +200,7 @@ def make_program(ts, ns):
 
 PROGRAMS = {
     "full": make_program(TEXT_SPECIALS, NAME_SPECIALS),
-    "small": make_program(TEXT_SMALL, NAME_SMALL),
+    "small": make_program(TEXT_SMALL, NAME_SMALL, 3),
 }
 
 
@@ -486,6 +489,12 @@ def convert(pdf: bytes, la, output: str, sink: str, codec: str, strip: bool, rot
                 out = open(path, mode, encoding="utf-8", newline="")
         else:
             out = io.StringIO() if sink == "str" else io.BytesIO()
+        extra = {}
+        if sink == "imgdir":
+            # XMLConverter with an ImageWriter: images are exported into a private directory (removed below)
+            tmpdir = tempfile.TemporaryDirectory(prefix="c11_")
+            imgdir = os.path.join(tmpdir.name, "img")
+            extra["output_dir"] = imgdir
         c = codec
         if textual and output == "xml":
             c = ""  # XMLConverter requires "no codec" for a text sink
@@ -493,13 +502,15 @@ def convert(pdf: bytes, la, output: str, sink: str, codec: str, strip: bool, rot
             hl.extract_text_to_fp(
                 io.BytesIO(pdf), out, output_type=output, codec=c,
                 laparams=None if la is None else lt.LAParams(**la), strip_control=strip,
-                **({"rotation": rotation} if rotation else {}),
+                **({"rotation": rotation} if rotation else {}), **extra,
             )
         except UnicodeEncodeError as e:
             return ("unrepresentable", str(e)[:80])
         except Exception as e:  # noqa
             tb = traceback.extract_tb(e.__traceback__)
             return ("exc", f"{type(e).__name__}@{tb[-1].name}", f"{type(e).__name__}: {e}"[:200])
+        if sink == "imgdir":
+            return ("ok", (out.getvalue(), sorted(os.listdir(imgdir))))
         if not sink.startswith("file:"):
             return ("ok", out.getvalue())
         if sink == "file:tmp":
@@ -513,10 +524,11 @@ def convert(pdf: bytes, la, output: str, sink: str, codec: str, strip: bool, rot
         return ("ok", data.decode("utf-8") if textual else data)
     finally:
         if tmpdir is not None:
-            try:
-                out.close()
-            except Exception:  # noqa
-                pass
+            if sink != "imgdir":
+                try:
+                    out.close()
+                except Exception:  # noqa
+                    pass
             tmpdir.cleanup()
 
 
@@ -604,6 +616,29 @@ def judge(ctx: Ctx, output: str, sink: str, codec: str, strip: bool):
         if ref[0] == "ok" and representable(ref[1], codec):
             return ("judged", ("unrepresentable",), [(f"C11/{output}-encode-error-although-representable", "encodable", r[1], "UnicodeEncodeError although every character is representable")])
         return ("not-representable", None, [])
+    if sink == "imgdir":
+        if r[0] != "ok":
+            return ("judged", ("exc", r[1]), [(f"C11/image-export-raises:{r[1]}", "images exported, XML written", r[2], "extract_text_to_fp(output_type='xml', output_dir=...) raised")])
+        val, files = r[1]
+        text = val.decode("utf-8", "replace")
+        try:
+            root = ET.fromstring(text)
+        except ET.ParseError as e:
+            return ("judged", h64(val), [("C11/xml-image-src-unescaped" if re.search(r'<image src="[^"]*[&<]|<image src="[^"]*"[^ ]', text)
+                                          else "C11/xml-control-char-in-image-src-not-stripped" if re.search(r'<image src="[^"]*(?:' + _C0 + "|" + _NONCHAR + ")", text)
+                                          else "C11/xml-with-images-not-wellformed",
+                                          "well-formed XML", str(e), "expat rejects the XML written with an image writer")])
+        viols = []
+        try:
+            compare_xml(root, ctx.pages, strip)
+        except Diff as d:
+            viols.append((classify_diff(d, ctx, text), d.expected, d.observed, f"XML (with image writer) differs from the hierarchy at {d.path} ({d.kind})"))
+        srcs = [el.get("src") for el in root.iter("image")]
+        want = sorted(strip_forbidden(f) for f in files) if strip else files  # characters XML cannot carry are dropped under strip_control
+        if sorted(s for s in srcs if s is not None) != want or None in srcs:
+            ws = sorted(re.sub("[\t\n\r]", " ", f) for f in files) == sorted(x for x in srcs if x is not None)
+            viols.append(("C11/xml-image-src-whitespace-normalised-by-parser" if ws else "C11/xml-image-src-is-not-the-exported-file", files, srcs, "every <image> names, in src, the file the image writer created"))
+        return ("judged", h64(val), viols)
     if sink.startswith("file:"):
         # a real file must receive exactly what the in-memory sink of the same kind receives
         ref = ctx.str_output(output, strip) if sink in FILE_SINKS_TEXT else ctx.bytes_output(output, strip)
@@ -695,6 +730,7 @@ def grid(la, full: bool):
                 for codec in CODECS:
                     yield output, "bytes", codec, strip
     if full and la == {}:
+        yield "xml", "imgdir", "utf-8", True  # XMLConverter with an ImageWriter (output_dir)
         # real files (documents with <= 1 special slot, default LAParams): binary modes incl. update modes, text modes
         for output, strip in (("text", False), ("xml", True)):
             for sink in FILE_SINKS_BINARY + FILE_SINKS_TEXT:
